@@ -35,8 +35,10 @@ theorem facts_match :
     FactsC10.toolCallOwnRunInfo = Expected.C10.toolCallOwnRunInfo := by
   decide
 
-private theorem gen_append : genFacts.appendCopies = true := by decide
-private theorem gen_on : genFacts.onCopies = true := by decide
+/-- `AppendHandlers` copies the inherited slice before appending (source fact) -/
+theorem fact_append_copies : genFacts.appendCopies = true := by decide
+/-- `On` does not append the global handlers to `mgr.handlers` in place (source fact) -/
+theorem fact_on_copies : genFacts.onCopies = true := by decide
 
 /-! ## handler lists -/
 
@@ -48,7 +50,7 @@ theorem handlers_exact (P : Prog) (evs : List Ev) (i p : Nat) (d : UnitDecl)
     (hd : P.units[i]? = some d) (hk : d.kind = .append) (hp : d.parent = some p)
     (hs : List Hd) (hcreated : handlersFor (run genFacts P evs) i = some hs) :
     ∃ inherited, handlersFor (run genFacts P evs) p = some inherited ∧ hs = inherited ++ d.desig := by
-  have inv := inv_run (P := P) gen_append gen_on evs
+  have inv := inv_run (P := P) fact_append_copies fact_on_copies evs
   unfold handlersFor at hcreated ⊢
   cases hc : (run genFacts P evs).ctxs i with
   | none => simp [hc] at hcreated
@@ -64,7 +66,7 @@ theorem handlers_exact (P : Prog) (evs : List Ev) (i p : Nat) (d : UnitDecl)
 theorem handlers_exact_root (P : Prog) (evs : List Ev) (i : Nat) (d : UnitDecl)
     (hd : P.units[i]? = some d) (hk : d.kind = .append) (hp : d.parent = none)
     (hs : List Hd) (hcreated : handlersFor (run genFacts P evs) i = some hs) : hs = d.desig := by
-  have inv := inv_run (P := P) gen_append gen_on evs
+  have inv := inv_run (P := P) fact_append_copies fact_on_copies evs
   unfold handlersFor at hcreated
   cases hc : (run genFacts P evs).ctxs i with
   | none => simp [hc] at hcreated
@@ -76,7 +78,7 @@ theorem handlers_exact_reuse (P : Prog) (evs : List Ev) (i p : Nat) (d : UnitDec
     (hd : P.units[i]? = some d) (hk : d.kind = .reuse) (hp : d.parent = some p)
     (hs : List Hd) (hcreated : handlersFor (run genFacts P evs) i = some hs) :
     handlersFor (run genFacts P evs) p = some hs := by
-  have inv := inv_run (P := P) gen_append gen_on evs
+  have inv := inv_run (P := P) fact_append_copies fact_on_copies evs
   unfold handlersFor at hcreated ⊢
   cases hc : (run genFacts P evs).ctxs i with
   | none => simp [hc] at hcreated
@@ -89,7 +91,7 @@ theorem handlers_exact_reuse (P : Prog) (evs : List Ev) (i p : Nat) (d : UnitDec
 theorem handlers_exact_init (P : Prog) (evs : List Ev) (i : Nat) (d : UnitDecl) (s : Slice)
     (hd : P.units[i]? = some d) (hk : d.kind = .init s)
     (hs : List Hd) (hcreated : handlersFor (run genFacts P evs) i = some hs) : hs = P.arrays.read s := by
-  have inv := inv_run (P := P) gen_append gen_on evs
+  have inv := inv_run (P := P) fact_append_copies fact_on_copies evs
   unfold handlersFor at hcreated
   cases hc : (run genFacts P evs).ctxs i with
   | none => simp [hc] at hcreated
@@ -101,7 +103,7 @@ theorem handlers_exact_init (P : Prog) (evs : List Ev) (i : Nat) (d : UnitDecl) 
     from the unit tree without any heap). -/
 theorem handlers_static (P : Prog) (evs : List Ev) (i : Nat) (hs : List Hd)
     (hcreated : handlersFor (run genFacts P evs) i = some hs) : hs = spec P i := by
-  have inv := inv_run (P := P) gen_append gen_on evs
+  have inv := inv_run (P := P) fact_append_copies fact_on_copies evs
   unfold handlersFor at hcreated
   cases hc : (run genFacts P evs).ctxs i with
   | none => simp [hc] at hcreated
@@ -112,7 +114,7 @@ theorem handlers_static (P : Prog) (evs : List Ev) (i : Nat) (hs : List Hd)
 /-- the caller's arrays are never written by the callback machinery -/
 theorem caller_slices_untouched (P : Prog) (evs : List Ev) (s : Slice) (hs : s.arr < P.arrays.length) :
     (run genFacts P evs).heap.read s = P.arrays.read s := by
-  obtain ⟨ext, hext⟩ := (inv_run (P := P) gen_append gen_on evs).heapPre
+  obtain ⟨ext, hext⟩ := (inv_run (P := P) fact_append_copies fact_on_copies evs).heapPre
   rw [hext, read_prefix _ _ _ hs]
 
 /-! ## dispatch -/
@@ -125,7 +127,7 @@ theorem unit_trace (P : Prog) (evs : List Ev) (i : Nat) :
     projLog (run genFacts P evs).log i =
       render genFacts.startReversed i (unitInfo P i) (spec P i ++ P.globals)
         ((unitProg P i).take ((run genFacts P evs).pc i)) :=
-  (inv_run (P := P) gen_append gen_on evs).log i
+  (inv_run (P := P) fact_append_copies fact_on_copies evs).log i
 
 /-- **no_cross_node.** Every callback that is ever delivered goes to a handler of the
     delivering unit's own list (or a global one), with that unit's run info and a timing the
